@@ -897,6 +897,7 @@ class Compiler:
         elif isinstance(node, ThrowStatement):
             self._set_loc(node)  # Record location of throw statement
             self._compile_expression(node.argument)
+            self._set_loc(node)  # (the operand moved it to its own tokens)
             self._emit(OpCode.THROW)
 
         elif isinstance(node, TryStatement):
@@ -1217,6 +1218,8 @@ class Compiler:
         old_in_function = self._in_function
         old_free_vars = self._free_vars
         old_cell_vars = self._cell_vars
+        old_source_map = self.source_map
+        self.source_map = {}  # positions are relative to this function's code
 
         # Push current locals to outer scope stack (for closure resolution)
         old_const_name = self._const_name
@@ -1274,6 +1277,7 @@ class Compiler:
             free_vars=self._free_vars[:],
             cell_vars=self._cell_vars[:],
             is_arrow=True,
+            source_map=self.source_map,
         )
 
         # Pop outer scope if we pushed it
@@ -1283,6 +1287,7 @@ class Compiler:
         self._const_name = old_const_name
 
         # Restore state
+        self.source_map = old_source_map
         self.bytecode = old_bytecode
         self.constants = old_constants
         self.locals = old_locals
@@ -1318,6 +1323,8 @@ class Compiler:
         old_in_function = self._in_function
         old_free_vars = self._free_vars
         old_cell_vars = self._cell_vars
+        old_source_map = self.source_map
+        self.source_map = {}  # positions are relative to this function's code
 
         # Push current locals to outer scope stack (for closure resolution)
         old_const_name = self._const_name
@@ -1386,6 +1393,7 @@ class Compiler:
             num_locals=len(self.locals),
             free_vars=self._free_vars[:],
             cell_vars=self._cell_vars[:],
+            source_map=self.source_map,
         )
 
         # Pop outer scope if we pushed it
@@ -1395,6 +1403,7 @@ class Compiler:
         self._const_name = old_const_name
 
         # Restore state
+        self.source_map = old_source_map
         self.bytecode = old_bytecode
         self.constants = old_constants
         self.locals = old_locals
@@ -1410,6 +1419,9 @@ class Compiler:
 
     def _compile_expression(self, node: Node) -> None:
         """Compile an expression."""
+        if getattr(node, "loc", None) is not None:
+            # Runtime errors report the position of the nearest token before them
+            self._set_loc(node)
         if isinstance(node, NumericLiteral):
             idx = self._add_constant(node.value)
             self._emit(OpCode.LOAD_CONST, idx)
